@@ -1,5 +1,8 @@
 import RV.Proofs.OrbitArgs
 import RV.Proofs.OrbitRoundTrip
+import RV.Proofs.OrbitAngles
+import RV.Proofs.OrbitReal
+import RV.Proofs.OrbitPal
 import RV.Gen.C11Args
 import Mathlib.Data.Rat.Defs
 import Mathlib.Algebra.Order.Field.Rat
@@ -96,43 +99,48 @@ section elements
 variable {K : Type} [Field K] [LinearOrder K] [IsStrictOrderedRing K]
 
 /-- `reb_particle_from_orbit_err` rejects exactly the documented inputs, in first-match
-    order (each error ↔ its condition given that no earlier test fired); `cf` is `cos f`;
-    `asymLe` says whether the source tests `e cos f ≤ -1` (repaired) or `< -1` (unchanged):
-    `beyond false x ↔ x < -1`, `beyond true x ↔ x ≤ -1`, `notBeyond` the negations -/
-theorem c11_fromOrbit_rejects_exactly (asymLe : Bool) (tiny pm a e cf : K) :
-    (fromOrbitCheck asymLe tiny pm a e cf = some .radial ↔ e = 1) ∧
-    (fromOrbitCheck asymLe tiny pm a e cf = some .negE ↔ e < 0) ∧
-    (fromOrbitCheck asymLe tiny pm a e cf = some .boundE ↔ (1 < e ∧ 0 < a)) ∧
-    (fromOrbitCheck asymLe tiny pm a e cf = some .unboundE ↔ (0 ≤ e ∧ e < 1 ∧ a < 0)) ∧
-    (fromOrbitCheck asymLe tiny pm a e cf = some .fRange ↔
-      (e ≠ 1 ∧ 0 ≤ e ∧ (1 < e → a ≤ 0) ∧ (e < 1 → 0 ≤ a) ∧ beyond asymLe (e * cf))) ∧
-    (fromOrbitCheck asymLe tiny pm a e cf = some .noMass ↔
-      (e ≠ 1 ∧ 0 ≤ e ∧ (1 < e → a ≤ 0) ∧ (e < 1 → 0 ≤ a) ∧ notBeyond asymLe (e * cf) ∧ pm < tiny)) ∧
-    (fromOrbitCheck asymLe tiny pm a e cf = none ↔
-      (e ≠ 1 ∧ 0 ≤ e ∧ (1 < e → a ≤ 0) ∧ (e < 1 → 0 ≤ a) ∧ notBeyond asymLe (e * cf) ∧ tiny ≤ pm)) :=
+    order (each error ↔ its condition given that no earlier test fired); `cf` is `cos f`.
+    `v.asymLe` says whether the source tests `e cos f ≤ -1` (repaired) or `< -1` (original):
+    `beyond false x ↔ x < -1`, `beyond true x ↔ x ≤ -1`, `notBeyond` the negations;
+    `v.aStrict` whether it tests `a ≥ 0` / `a ≤ 0` (fixes/C11-reject-a-zero.diff) or
+    `a > 0` / `a < 0`: `aPos false a ↔ 0 < a`, `aPos true a ↔ 0 ≤ a`, `aNeg` likewise. -/
+theorem c11_fromOrbit_rejects_exactly (v : Variant) (tiny pm a e cf : K) :
+    (fromOrbitCheck v tiny pm a e cf = some .radial ↔ e = 1) ∧
+    (fromOrbitCheck v tiny pm a e cf = some .negE ↔ e < 0) ∧
+    (fromOrbitCheck v tiny pm a e cf = some .boundE ↔ (1 < e ∧ aPos v.aStrict a)) ∧
+    (fromOrbitCheck v tiny pm a e cf = some .unboundE ↔ (0 ≤ e ∧ e < 1 ∧ aNeg v.aStrict a)) ∧
+    (fromOrbitCheck v tiny pm a e cf = some .fRange ↔
+      (e ≠ 1 ∧ 0 ≤ e ∧ (1 < e → ¬ aPos v.aStrict a) ∧ (e < 1 → ¬ aNeg v.aStrict a) ∧ beyond v.asymLe (e * cf))) ∧
+    (fromOrbitCheck v tiny pm a e cf = some .noMass ↔
+      (e ≠ 1 ∧ 0 ≤ e ∧ (1 < e → ¬ aPos v.aStrict a) ∧ (e < 1 → ¬ aNeg v.aStrict a) ∧
+        notBeyond v.asymLe (e * cf) ∧ pm < tiny)) ∧
+    (fromOrbitCheck v tiny pm a e cf = none ↔
+      (e ≠ 1 ∧ 0 ≤ e ∧ (1 < e → ¬ aPos v.aStrict a) ∧ (e < 1 → ¬ aNeg v.aStrict a) ∧
+        notBeyond v.asymLe (e * cf) ∧ tiny ≤ pm)) :=
   ⟨check_radial_iff .., check_negE_iff .., check_boundE_iff .., check_unboundE_iff ..,
    check_fRange_iff .., check_noMass_iff .., check_none_iff ..⟩
 
 /-- the wrapper returns error `err` iff the tests say so, and otherwise the particle of
     `fromOrbitCore` fed with the libm values -/
-theorem c11_fromOrbit_error_or_core (L : Libm K) (v : Variant) (G : K) (pr : Part K)
+theorem c11_fromOrbit_error_or_core (L : Libm K) (v : Variant) (G : K) (pr : Orbit.Part K)
     (m a e inc Om om f : K) :
     (∀ err, @fromOrbit K L.orbitK v G pr m a e inc Om om f = .error err ↔
-        fromOrbitCheck v.asymLe L.tiny pr.m a e (L.cos f) = some err) ∧
+        fromOrbitCheck v L.tiny pr.m a e (L.cos f) = some err) ∧
     (∀ P, @fromOrbit K L.orbitK v G pr m a e inc Om om f = .ok P →
-        fromOrbitCheck v.asymLe L.tiny pr.m a e (L.cos f) = none ∧
+        fromOrbitCheck v L.tiny pr.m a e (L.cos f) = none ∧
         P = fromOrbitCore pr m a e
               ⟨L.cos Om, L.sin Om, L.cos om, L.sin om, L.cos f, L.sin f, L.cos inc, L.sin inc⟩
               (L.sqrt (v0sq G pr.m m a e))) :=
   ⟨fun err => fromOrbit_error_iff L v G pr m a e inc Om om f err,
    fun P h => fromOrbit_ok L v G pr m a e inc Om om f P h⟩
 
-/-- what the guard of the unchanged tree does give: `1 - e²  ≠ 0` and `1 + e cos f ≥ 0` -/
-theorem c11_fromOrbit_guard (asymLe : Bool) (tiny pm a e cf : K)
-    (h : fromOrbitCheck asymLe tiny pm a e cf = none) :
+/-- what every variant of the guard gives: `1 - e²  ≠ 0` and `1 + e cos f ≥ 0` -/
+theorem c11_fromOrbit_guard (v : Variant) (tiny pm a e cf : K)
+    (h : fromOrbitCheck v tiny pm a e cf = none) :
     1 - e * e ≠ 0 ∧ 0 ≤ 1 + e * cf := by
-  obtain ⟨h1, h0, hb, hu, hf, hm⟩ := (check_none_iff asymLe tiny pm a e cf).mp h
+  obtain ⟨h1, h0, hb, hu, hf, hm⟩ := (check_none_iff v tiny pm a e cf).mp h
   have hf' : -1 ≤ e * cf := by
+    rcases v with ⟨v1, v2, asymLe, v4, v5⟩
     cases asymLe
     · simpa [notBeyond] using hf
     · have : -1 < e * cf := by simpa [notBeyond] using hf
@@ -144,38 +152,49 @@ theorem c11_fromOrbit_guard (asymLe : Bool) (tiny pm a e cf : K)
   · have : 1 - e * e < 0 := by nlinarith
     exact ne_of_lt this
 
-/-- PARTIAL (the FULL statement "accepted ⇒ every denominator non-zero" is false of the
-    unchanged tree, see the two theorems below): accepted input with `a ≠ 0` (finding
-    C11:a-zero-accepted) and — when the source tests `<` — `e cos f ≠ -1` (finding
-    C11:asymptote-equality-accepted) has all three denominators `1 - e²`, `1 + e cos f`, `a`
-    non-zero, and `a(1-e²) > 0`, `1 + e cos f > 0` (so `r > 0` and the argument of the
-    `sqrt` giving `v0` is ≥ 0 for μ ≥ 0) -/
-theorem c11_fromOrbit_denominators_partial (asymLe : Bool) (tiny pm a e cf : K)
-    (h : fromOrbitCheck asymLe tiny pm a e cf = none) (ha : a ≠ 0)
-    (hasym : asymLe = false → e * cf ≠ -1) :
+/-- accepted input has all three denominators `1 - e²`, `1 + e cos f`, `a` non-zero, and
+    `a(1-e²) > 0`, `1 + e cos f > 0` (so `r > 0` and the argument of the `sqrt` giving `v0` is
+    ≥ 0 for μ ≥ 0).  FULL for the repaired source (`v.aStrict`, `v.asymLe` both true: no extra
+    hypothesis); PARTIAL for the original tests: `a ≠ 0` (finding C11:a-zero-accepted) and
+    `e cos f ≠ -1` (finding C11:asymptote-equality-accepted) must be assumed — see the two
+    theorems below. -/
+theorem c11_fromOrbit_denominators_partial (v : Variant) (tiny pm a e cf : K)
+    (h : fromOrbitCheck v tiny pm a e cf = none) (ha : v.aStrict = false → a ≠ 0)
+    (hasym : v.asymLe = false → e * cf ≠ -1) :
     1 - e * e ≠ 0 ∧ 1 + e * cf ≠ 0 ∧ 0 < a * (1 - e * e) ∧ 0 < 1 + e * cf :=
-  guard_denoms asymLe tiny pm a e cf h ha hasym
+  guard_denoms v tiny pm a e cf h ha hasym
 
 /-- the unchanged guard (`<`) accepts `e cos f = -1` exactly (division by zero in `r`) -/
 theorem c11_fromOrbit_accepts_asymptote (tiny : K) :
-    ∃ pm a e cf : K, fromOrbitCheck false tiny pm a e cf = none ∧ 1 + e * cf = 0 := by
+    ∃ pm a e cf : K, fromOrbitCheck Variant.unfixed tiny pm a e cf = none ∧ 1 + e * cf = 0 := by
   refine ⟨tiny, -1, 2, -1 / 2, ?_, by norm_num⟩
   rw [check_none_iff]
-  norm_num [notBeyond]
+  norm_num [notBeyond, aPos, aNeg, Variant.unfixed]
 
-/-- either guard accepts `a = 0` (division by zero in `v0`) -/
-theorem c11_fromOrbit_accepts_a_zero (asymLe : Bool) (tiny : K) :
-    ∃ pm a e cf : K, fromOrbitCheck asymLe tiny pm a e cf = none ∧ a = 0 := by
+/-- the original sign tests accept `a = 0` (division by zero in `v0`), whatever the other
+    repairs; with fixes/C11-reject-a-zero.diff (`v.aStrict`) `a = 0` is always rejected -/
+theorem c11_fromOrbit_accepts_a_zero (v : Variant) (hv : v.aStrict = false) (tiny : K) :
+    ∃ pm a e cf : K, fromOrbitCheck v tiny pm a e cf = none ∧ a = 0 := by
   refine ⟨tiny, 0, 0, 1, ?_, rfl⟩
-  rw [check_none_iff]
-  cases asymLe <;> norm_num [notBeyond]
+  rw [check_none_iff, hv]
+  rcases v with ⟨v1, v2, asymLe, v4, v5⟩
+  cases asymLe <;> norm_num [notBeyond, aPos, aNeg]
+
+theorem c11_fromOrbit_rejects_a_zero_fixed (v : Variant) (hv : v.aStrict = true) (tiny pm e cf : K) :
+    fromOrbitCheck v tiny pm 0 e cf ≠ none := by
+  intro h
+  obtain ⟨h1, h0, hb, hu, _⟩ := (check_none_iff v tiny pm 0 e cf).mp h
+  rw [hv] at hb hu
+  rcases lt_or_gt_of_ne h1 with he | he
+  · exact hu he (by simp [aNeg])
+  · exact hb he (by simp [aPos])
 
 /-- defining relations of the particle returned by `fromOrbitCore` over any field: with the
     four identities `c² + s² = 1`, `v0² = μ/a/(1-e²)` and the three denominators non-zero,
     `|Δx| = r = a(1-e²)/(1+e cos f)` (squared), vis-viva `v² = μ(2/r - 1/a)`,
     `h² = μ a (1-e²)`, `h = H·(sin i sin Ω, -sin i cos Ω, cos i)` with `H² = h²`
     (so `h_z = h cos i`), and `Δx·Δv = r v0 e sin f` -/
-theorem c11_fromOrbit_defining_relations (G : K) (pr : Part K) (m a e cO sO co so cf sf ci si v0 : K)
+theorem c11_fromOrbit_defining_relations (G : K) (pr : Orbit.Part K) (m a e cO sO co so cf sf ci si v0 : K)
     (hO : cO ^ 2 + sO ^ 2 = 1) (ho : co ^ 2 + so ^ 2 = 1) (hf : cf ^ 2 + sf ^ 2 = 1)
     (hi : ci ^ 2 + si ^ 2 = 1)
     (ha : a ≠ 0) (he : 1 - e * e ≠ 0) (hd : 1 + e * cf ≠ 0)
@@ -204,7 +223,7 @@ theorem c11_fromOrbit_defining_relations (G : K) (pr : Part K) (m a e cO sO co s
 theorem c11_reader_of_constructor_partial (L : Libm K)
     (htrig : ∀ x, L.cos x ^ 2 + L.sin x ^ 2 = 1)
     (hsqrt : ∀ x, 0 ≤ x → 0 ≤ L.sqrt x ∧ L.sqrt x ^ 2 = x)
-    (v : Variant) (G : K) (pr : Part K) (m a e inc Om om f t0 : K) (P : Part K) (o : Orb K)
+    (v : Variant) (G : K) (pr : Orbit.Part K) (m a e inc Om om f t0 : K) (P : Orbit.Part K) (o : Orb K)
     (hP : @fromOrbit K L.orbitK v G pr m a e inc Om om f = .ok P)
     (ho : @orbitFromParticle K L.orbitK v G P pr t0 = .ok o)
     (hmu : 0 < G * (m + pr.m)) (ha : a ≠ 0) (hasym : v.asymLe = false → e * L.cos f ≠ -1) :
@@ -213,6 +232,128 @@ theorem c11_reader_of_constructor_partial (L : Libm K)
     o.ey = e * (L.sin Om * L.cos om + L.cos Om * L.sin om * L.cos inc) ∧
     o.ez = e * (L.sin om * L.sin inc) ∧ o.e = e :=
   reader_of_constructor L htrig hsqrt v G pr m a e inc Om om f t0 P o hP ho hmu ha hasym
+
+/-- the quadrant logic of `acos2`: for θ ∈ (-π, π], ρ > 0 and a disambiguator with the sign of
+    sin θ, `acos2(ρ cos θ, ρ, dis) = θ` (`TrigSpec`: c²+s²=1, cos 0 = 1, cos π = -1,
+    acos∘cos = id on [0,π], sin > 0 on (0,π), parity, addition formulas) -/
+theorem c11_acos2_quadrant {L : Libm K} (T : TrigSpec L) (t rho dis : K) (hr : 0 < rho)
+    (h0 : -L.pi < t) (h1 : t ≤ L.pi)
+    (hd1 : L.sin t < 0 → dis < 0) (hd2 : 0 < L.sin t → 0 ≤ dis) :
+    @acos2 K L.orbitK (rho * L.cos t) rho dis = t :=
+  acos2_angle' T t rho dis hr h0 h1 hd1 hd2
+
+/-- FULL inverse on the generic branch (the code's own branch condition: not
+    `inc < 1e-8 || inc > π - 1e-8`), elliptic and hyperbolic alike, non-circular (e ≠ 0):
+    `orbitFromParticle (fromOrbit (a, e, inc, Ω, ω, f))` returns `(a, e, inc, Ω, ω, f)` for
+    Ω ∈ (-π, π], ω, f ∈ [0, 2π) (the ranges the reader reports), and θ, ϖ are
+    Ω ± (ω + f), Ω ± ω modulo 2π with the sign the reported inclination selects.
+    Remaining hypotheses: μ > 0, `a ≠ 0` (finding C11:a-zero-accepted; `e cos f ≠ -1` only for
+    the unrepaired asymptote test). -/
+theorem c11_reader_inverse_generic {L : Libm K} (T : TrigSpec L) (hf : FmodSpec L.fmod)
+    (hsqrt : ∀ x, 0 ≤ x → 0 ≤ L.sqrt x ∧ L.sqrt x ^ 2 = x)
+    (v : Variant) (G : K) (pr : Orbit.Part K) (m a e inc Om om f t0 : K) (P : Orbit.Part K) (o : Orb K)
+    (hP : @fromOrbit K L.orbitK v G pr m a e inc Om om f = .ok P)
+    (ho : @orbitFromParticle K L.orbitK v G P pr t0 = .ok o)
+    (hmu : 0 < G * (m + pr.m)) (ha : a ≠ 0) (hasym : v.asymLe = false → e * L.cos f ≠ -1)
+    (he : e ≠ 0)
+    (hi1 : ¬ inc < 1 / 100000000) (hi2 : ¬ L.pi - 1 / 100000000 < inc)
+    (hO : -L.pi < Om ∧ Om ≤ L.pi) (hom : 0 ≤ om ∧ om < 2 * L.pi) (hff : 0 ≤ f ∧ f < 2 * L.pi) :
+    o.a = a ∧ o.e = e ∧ o.inc = inc ∧ o.Omega = Om ∧ o.omega = om ∧ o.f = f ∧
+    (inc < L.pi / 2 → (∃ n : ℤ, o.theta = Om + (om + f) - n * (2 * L.pi)) ∧ (∃ n : ℤ, o.pomega = Om + om - n * (2 * L.pi))) ∧
+    (¬ inc < L.pi / 2 → (∃ n : ℤ, o.theta = Om - (om + f) - n * (2 * L.pi)) ∧ (∃ n : ℤ, o.pomega = Om - om - n * (2 * L.pi))) :=
+  reader_inverse_generic T hf hsqrt v G pr m a e inc Om om f t0 P o hP ho hmu ha hasym he hi1 hi2 hO hom hff
+
+/-- PARTIAL, any branch of the switch (in particular the near-planar one,
+    `inc < 1e-8 || inc > π - 1e-8`, as long as 0 < inc < π): a, e, inc, Ω come back exactly.
+    Missing there: ω and f — in that branch the code reports the broken angles
+    (acos of the x-components of r and e), which equal ω, f only up to O(inc²). -/
+theorem c11_reader_inverse_anybranch_partial {L : Libm K} (T : TrigSpec L)
+    (hsqrt : ∀ x, 0 ≤ x → 0 ≤ L.sqrt x ∧ L.sqrt x ^ 2 = x)
+    (v : Variant) (G : K) (pr : Orbit.Part K) (m a e inc Om om f t0 : K) (P : Orbit.Part K) (o : Orb K)
+    (hP : @fromOrbit K L.orbitK v G pr m a e inc Om om f = .ok P)
+    (ho : @orbitFromParticle K L.orbitK v G P pr t0 = .ok o)
+    (hmu : 0 < G * (m + pr.m)) (ha : a ≠ 0) (hasym : v.asymLe = false → e * L.cos f ≠ -1)
+    (hinc0 : 0 < inc) (hinc1 : inc < L.pi) (hO : -L.pi < Om ∧ Om ≤ L.pi) :
+    o.a = a ∧ o.e = e ∧ o.inc = inc ∧ o.Omega = Om :=
+  reader_inverse_common T hsqrt v G pr m a e inc Om om f t0 P o hP ho hmu ha hasym hinc0 hinc1 hO
+
+/-- PARTIAL, near-planar branch taken at exactly inc = 0 (the model makes the C code's 0/0 → NaN
+    → 0 explicit): with the node given as Ω = 0 the reader returns (a, e, 0, 0, ω, f).
+    (For Ω ≠ 0 it returns the equivalent set (0, Ω+ω); retrograde-planar not proved.) -/
+theorem c11_reader_inverse_planar_partial {L : Libm K} (T : TrigSpec L) (hf : FmodSpec L.fmod)
+    (hsqrt : ∀ x, 0 ≤ x → 0 ≤ L.sqrt x ∧ L.sqrt x ^ 2 = x)
+    (v : Variant) (G : K) (pr : Orbit.Part K) (m a e om f t0 : K) (P : Orbit.Part K) (o : Orb K)
+    (hP : @fromOrbit K L.orbitK v G pr m a e 0 0 om f = .ok P)
+    (ho : @orbitFromParticle K L.orbitK v G P pr t0 = .ok o)
+    (hmu : 0 < G * (m + pr.m)) (ha : a ≠ 0) (hasym : v.asymLe = false → e * L.cos f ≠ -1)
+    (he : e ≠ 0) (hom : 0 ≤ om ∧ om < 2 * L.pi) (hff : 0 ≤ f ∧ f < 2 * L.pi) :
+    o.a = a ∧ o.e = e ∧ o.inc = 0 ∧ o.Omega = 0 ∧ o.omega = om ∧ o.f = f :=
+  reader_inverse_planar T hf hsqrt v G pr m a e om f t0 P o hP ho hmu ha hasym he hom hff
+
+/-- PARTIAL, exactly circular orbit (e = 0) given with ω = 0, generic inclination: the reader
+    returns (a, 0, inc, Ω, 0, f).  (For ω ≠ 0 it returns the equivalent (0, ω+f).) -/
+theorem c11_reader_inverse_circular_partial {L : Libm K} (T : TrigSpec L) (hf : FmodSpec L.fmod)
+    (hsqrt : ∀ x, 0 ≤ x → 0 ≤ L.sqrt x ∧ L.sqrt x ^ 2 = x)
+    (v : Variant) (G : K) (pr : Orbit.Part K) (m a inc Om f t0 : K) (P : Orbit.Part K) (o : Orb K)
+    (hP : @fromOrbit K L.orbitK v G pr m a 0 inc Om 0 f = .ok P)
+    (ho : @orbitFromParticle K L.orbitK v G P pr t0 = .ok o)
+    (hmu : 0 < G * (m + pr.m)) (ha : a ≠ 0)
+    (hi1 : ¬ inc < 1 / 100000000) (hi2 : ¬ L.pi - 1 / 100000000 < inc)
+    (hO : -L.pi < Om ∧ Om ≤ L.pi) (hff : 0 ≤ f ∧ f < 2 * L.pi) :
+    o.a = a ∧ o.e = 0 ∧ o.inc = inc ∧ o.Omega = Om ∧ o.omega = 0 ∧ o.f = f :=
+  reader_inverse_circular T hf hsqrt v G pr m a inc Om f t0 P o hP ho hmu ha hi1 hi2 hO hff
+
+/-- the same over ℝ with `Real.cos, Real.sin, Real.arccos, Real.sqrt, Real.pi` and the C-style
+    `fmod` on the reals — no abstract hypothesis left -/
+theorem c11_reader_inverse_generic_real
+    (v : Variant) (G : ℝ) (pr : Orbit.Part ℝ) (m a e inc Om om f t0 : ℝ) (P : Orbit.Part ℝ) (o : Orb ℝ)
+    (hP : @fromOrbit ℝ (realLibm fmodR).orbitK v G pr m a e inc Om om f = .ok P)
+    (ho : @orbitFromParticle ℝ (realLibm fmodR).orbitK v G P pr t0 = .ok o)
+    (hmu : 0 < G * (m + pr.m)) (ha : a ≠ 0) (hasym : v.asymLe = false → e * Real.cos f ≠ -1)
+    (he : e ≠ 0)
+    (hi1 : ¬ inc < 1 / 100000000) (hi2 : ¬ Real.pi - 1 / 100000000 < inc)
+    (hO : -Real.pi < Om ∧ Om ≤ Real.pi) (hom : 0 ≤ om ∧ om < 2 * Real.pi) (hff : 0 ≤ f ∧ f < 2 * Real.pi) :
+    o.a = a ∧ o.e = e ∧ o.inc = inc ∧ o.Omega = Om ∧ o.omega = om ∧ o.f = f :=
+  let h := reader_inverse_generic (realTrigSpec fmodR) fmodR_spec (realSqrtSpec fmodR) v G pr m a e inc Om om f t0
+    P o hP ho hmu ha hasym he hi1 hi2 hO hom hff
+  ⟨h.1, h.2.1, h.2.2.1, h.2.2.2.1, h.2.2.2.2.1, h.2.2.2.2.2.1⟩
+
+/-- PARTIAL inverse for Pal (2009) elements, on the model functions: the reader applied to
+    `reb_particle_from_pal (a, λ, k, h, ix, iy)` reports `pal_h = h`, `pal_k = k`, `pal_ix = ix`,
+    `pal_iy = iy`, `a`, and the distance `a(1 - q)`, for a bound orbit (`h²+k² < 1`), `ix²+iy² < 4`,
+    `a > 0`, μ > 0.  The only numerical hypothesis is that the output `(p, q)` of
+    `reb_tools_solve_kepler_pal` satisfies Pal's Kepler equation `p = k sin(λ+p) - h cos(λ+p)`,
+    `q = k cos(λ+p) + h sin(λ+p)` (its repaired update is the Newton step for exactly this system:
+    `c11_pal_step_is_newton_fixed`).  Missing: λ, which reb_orbit does not report as such (its
+    mean longitude `l` goes through `acos`). -/
+theorem c11_reader_of_fromPal_partial {L : Libm K} (hsq : ∀ x, L.cos x ^ 2 + L.sin x ^ 2 = 1)
+    (hsqrt : ∀ x, 0 ≤ x → 0 ≤ L.sqrt x ∧ L.sqrt x ^ 2 = x) (hfabs : ∀ x, 0 ≤ x → L.fabs x = x)
+    (v : Variant) (G : K) (pr : Orbit.Part K) (m a lam k h ix iy t0 : K) (o : Orb K)
+    (ho : @orbitFromParticle K L.orbitK v G (@fromPal K L.orbitK v G pr m a lam k h ix iy) pr t0 = .ok o)
+    (hK : (@solveKeplerPal K L.orbitK v h k lam).1 = k * L.sin (lam + (@solveKeplerPal K L.orbitK v h k lam).1)
+            - h * L.cos (lam + (@solveKeplerPal K L.orbitK v h k lam).1) ∧
+          (@solveKeplerPal K L.orbitK v h k lam).2 = k * L.cos (lam + (@solveKeplerPal K L.orbitK v h k lam).1)
+            + h * L.sin (lam + (@solveKeplerPal K L.orbitK v h k lam).1))
+    (ha : 0 < a) (hmu : 0 < G * (m + pr.m)) (he : h * h + k * k < 1) (hi : ix * ix + iy * iy < 4) :
+    o.pal_h = h ∧ o.pal_k = k ∧ o.pal_ix = ix ∧ o.pal_iy = iy ∧ o.a = a ∧
+    o.d = a * (1 - (@solveKeplerPal K L.orbitK v h k lam).2) :=
+  reader_of_fromPal hsq hsqrt hfabs v G pr m a lam k h ix iy t0 o ho hK ha hmu he hi
+
+/-- the polynomial core of the Pal construction: with c²+s²=1, (1-l)² = 1-h²-k² and
+    p = k s - h c, q = k c + h s: r = a(1-q), the in-plane angular momentum is a·an·(1-l),
+    and the (k, h) components are recovered (scaled forms, no division) -/
+theorem c11_pal_inplane_identities (c s l h k : K) (hcs : c ^ 2 + s ^ 2 = 1)
+    (hl : (1 - l) ^ 2 = 1 - h ^ 2 - k ^ 2) :
+    let p := k * s - h * c; let q := k * c + h * s
+    let D2 := 2 - l; let D1 := 1 - q
+    let Xi := c * D2 + p * h - k * D2; let Eta := s * D2 - p * k - h * D2
+    let Xi1 := -s * D2 + q * h; let Eta1 := c * D2 - q * k
+    Xi ^ 2 + Eta ^ 2 = D2 ^ 2 * D1 ^ 2 ∧
+    Xi * Eta1 - Eta * Xi1 = D2 ^ 2 * D1 * (1 - l) ∧
+    (1 - l) * Eta1 - Xi = k * D1 * D2 ∧
+    -(1 - l) * Xi1 - Eta = h * D1 * D2 ∧
+    Xi1 ^ 2 + Eta1 ^ 2 = D2 ^ 2 * (1 - q) * (1 + q) :=
+  pal_I1 c s l h k hcs hl
 
 /-- `reb_mod2pi` maps into `[0, 2π)` and changes its argument by a multiple of `2π`, for any
     `fmod` with the C semantics (|fmod x y| < y, sign of x, x - fmod x y ∈ yℤ) -/
@@ -225,7 +366,7 @@ theorem c11_mod2pi_range (fmod : K → K → K) (h : FmodSpec fmod) (pi : K) (hp
     f, l, M, θ, ω ∈ [0, 2π); inc ∈ [0, π]; Ω ∈ [-π, π] — for any libm with `acos x ∈ [0, π]`
     and a C-like `fmod` -/
 theorem c11_reader_ranges (L : Libm K) (hf : FmodSpec L.fmod) (hpi : 0 < L.pi)
-    (hacos : ∀ x, 0 ≤ L.acos x ∧ L.acos x ≤ L.pi) (v : Variant) (G : K) (p pr : Part K) (t0 : K)
+    (hacos : ∀ x, 0 ≤ L.acos x ∧ L.acos x ≤ L.pi) (v : Variant) (G : K) (p pr : Orbit.Part K) (t0 : K)
     (o : Orb K) (h : @orbitFromParticle K L.orbitK v G p pr t0 = .ok o) :
     (0 ≤ o.f ∧ o.f < 2 * L.pi) ∧ (0 ≤ o.l ∧ o.l < 2 * L.pi) ∧ (0 ≤ o.M ∧ o.M < 2 * L.pi) ∧
     (0 ≤ o.theta ∧ o.theta < 2 * L.pi) ∧ (0 ≤ o.omega ∧ o.omega < 2 * L.pi) ∧
@@ -276,23 +417,23 @@ theorem c11_pal_step_not_newton_unfixed :
   norm_num at this
 
 /-! the hypotheses are satisfiable: concrete instances over ℚ -/
-example : fromOrbitCheck false (1 / 1000 : ℚ) 1 2 (1 / 2) (-1) = none := by
-  rw [check_none_iff]; norm_num [notBeyond]
-example : fromOrbitCheck false (1 / 1000 : ℚ) 1 (-2) 3 (-1 / 2) = some .fRange := by
-  rw [check_fRange_iff]; norm_num [beyond]
-example : fromOrbitCheck false (1 / 1000 : ℚ) 0 2 (1 / 2) 1 = some .noMass := by
-  rw [check_noMass_iff]; norm_num [notBeyond]
-example : fromOrbitCheck false (1 / 1000 : ℚ) 1 2 1 1 = some .radial := by
+example : fromOrbitCheck Variant.unfixed (1 / 1000 : ℚ) 1 2 (1 / 2) (-1) = none := by
+  rw [check_none_iff]; norm_num [notBeyond, aPos, aNeg, Variant.unfixed]
+example : fromOrbitCheck Variant.unfixed (1 / 1000 : ℚ) 1 (-2) 3 (-1 / 2) = some .fRange := by
+  rw [check_fRange_iff]; norm_num [beyond, aPos, aNeg, Variant.unfixed]
+example : fromOrbitCheck Variant.unfixed (1 / 1000 : ℚ) 0 2 (1 / 2) 1 = some .noMass := by
+  rw [check_noMass_iff]; norm_num [notBeyond, aPos, aNeg, Variant.unfixed]
+example : fromOrbitCheck Variant.unfixed (1 / 1000 : ℚ) 1 2 1 1 = some .radial := by
   rw [check_radial_iff]
-example : fromOrbitCheck false (1 / 1000 : ℚ) 1 2 (-1) 1 = some .negE := by
+example : fromOrbitCheck Variant.unfixed (1 / 1000 : ℚ) 1 2 (-1) 1 = some .negE := by
   rw [check_negE_iff]; norm_num
-example : fromOrbitCheck false (1 / 1000 : ℚ) 1 2 3 1 = some .boundE := by
-  rw [check_boundE_iff]; norm_num
-example : fromOrbitCheck false (1 / 1000 : ℚ) 1 (-2) (1 / 2) 1 = some .unboundE := by
-  rw [check_unboundE_iff]; norm_num
+example : fromOrbitCheck Variant.unfixed (1 / 1000 : ℚ) 1 2 3 1 = some .boundE := by
+  rw [check_boundE_iff]; norm_num [aPos, Variant.unfixed]
+example : fromOrbitCheck Variant.unfixed (1 / 1000 : ℚ) 1 (-2) (1 / 2) 1 = some .unboundE := by
+  rw [check_unboundE_iff]; norm_num [aNeg, Variant.unfixed]
 /-- a rational orbit: a = 1, e = 3/5, all angles with (cos, sin) = (3/5, 4/5), μ = 16/25·…:
     `v0² = μ/a/(1-e²)` with μ = 16/25 gives v0 = 1 -/
-example : ∀ P : Part ℚ, P = fromOrbitCore (⟨0, 0, 0, 0, 0, 0, 1⟩ : Part ℚ) 0 1 (3 / 5)
+example : ∀ P : Orbit.Part ℚ, P = fromOrbitCore (⟨0, 0, 0, 0, 0, 0, 1⟩ : Orbit.Part ℚ) 0 1 (3 / 5)
       ⟨3 / 5, 4 / 5, 3 / 5, 4 / 5, 3 / 5, 4 / 5, 3 / 5, 4 / 5⟩ 1 →
     P.vx ^ 2 + P.vy ^ 2 + P.vz ^ 2 = (16 / 25) * (2 / ((16 / 25) / (1 + 9 / 25)) - 1) := by
   intro P hP
